@@ -366,6 +366,10 @@ func restore(c *core.Ctx, h *Handle, s0 []mon.KV) bool {
 func RunInvalid(c *core.Ctx) {
 	r := c.R
 	backend := gen.Pick(r, []string{BBolt, BadgerMem, BBolt, BadgerDisk})
+	if c.Case%4 == 0 {
+		// the oversized-transaction scenarios need badger's shipped options (values below 1 MB count towards the transaction size)
+		backend = gen.Pick(r, []string{BadgerShip, BadgerShip, BBolt})
+	}
 	h, err := Open(c, backend, "")
 	if err != nil {
 		c.Violate("open-error", "opening %s failed: %v", backend, err)
